@@ -436,6 +436,19 @@ def occurrences_roots_and_independence(ctx):
             if seen != [keys, len(keys), True]:
                 ctx.fail("a member of the created object is missing from its iteration / len / `in`", meta, seen,
                          [keys, len(keys), True], kind="special")
+    # unknown names of every kind raise TypeNotFound (an attribute step written @name included)
+    for name in ("Occ.@nosuch", "order.@nosuch", "Doc2.@nosuch", "Occ.in.@zz", "Occ.nosuch", "NoSuch.@id"):
+        meta = {"stream": "unknown-names", "name": name}
+        ctx.case(common.canon(meta), True)
+        for spelled in (T + name, name):
+            try:
+                r = client.factory.create(spelled)
+                got = "returned %r" % (K.normal(r),)
+            except Exception as e:
+                got = type(e).__name__
+            if got != "TypeNotFound":
+                ctx.fail("an unknown name does not raise TypeNotFound", dict(meta, spelled=spelled), got, "TypeNotFound",
+                         kind="special")
     for name, spell2 in (("Color", "Color"), ("Color", "ns0:Color"), ("Occ", "Occ"), ("Inner", "order.in")):
         meta = {"stream": "fresh-objects", "name": name, "then": spell2}
         ctx.case(common.canon(meta), True)
